@@ -116,6 +116,18 @@ Lemma params_agree10 fixed e v ks fl st : Complete.client_run10 fixed e v ks fl 
   cs_alpn st = ss_alpn ss /\ cs_psk st = ss_resumed ss.
 Proof. unfold Complete.client_run10. apply params_agree. Qed.
 
+(* TLS <= 1.2 resumption: the client reports the ServerHello's values, in particular the protocol of THIS ServerHello
+   (none if it carries none), never the cached session's *)
+Lemma resume12_agree e v se vers h h_ems ok st : client_resume12 e v se vers h h_ems ok = Complete st ->
+  let ss := server_state_resumed12 vers h in
+  cs_vers st = ss_vers ss /\ cs_suite st = ss_suite ss /\ cs_group st = ss_group ss /\
+  cs_alpn st = ss_alpn ss /\ cs_psk st = ss_resumed ss.
+Proof.
+  unfold client_resume12.
+  repeat match goal with |- context [if ?b then _ else _] => destruct b; [discriminate|] end.
+  intros E; inversion E; subst st. cbn. repeat split; reflexivity.
+Qed.
+
 (* ------------------------------------------------------------------ *)
 (* server name *)
 
